@@ -9,6 +9,7 @@
 import TypedpyModel.Drive.Wire
 import TypedpyModel.Sem.SchemaToCode
 import TypedpyModel.Sem.SchemaEmit
+import TypedpyModel.Spec.CodeExact
 namespace Typedpy.Drive.SchemaCode
 open Lean (Json)
 open Typedpy Typedpy.Wire
@@ -197,7 +198,19 @@ def run (j : Json) : Except String Json := do
     | some x => (← x.getArr?).toList.mapM (·.getNat?)
   let pr : Char → Bool := fun c => !nonprint.contains c.toNat
   let s ← Schema.ofJson sj
-  let defs ← defsJ.mapM fun (n, d) => do pure (n, ← Schema.ofJson d)
+  let defsDict ← defsJ.mapM fun (n, d) => do pure (n, ← Schema.ofJson d)
+  let defDescs0 : List (Option String) ← match optField j "defDescs" with
+    | none => pure (defsDict.map fun _ => none)
+    | some x => (← x.getArr?).toList.mapM fun e => match e with
+      | .null => pure none
+      | e => do pure (some (← e.getStr?))
+  -- `schema_definitions_to_code` emits in depth-first dependency order (`_definitions_in_dependency_order`)
+  let order := topoOrder defsDict
+  let defs : List (String × Schema) := order.filterMap fun n => (lookup n defsDict).map fun d => (n, d)
+  let descOf (n : String) : Option String :=
+    match (defsDict.map (·.1)).zip defDescs0 |>.find? (fun e => e.1 == n) with
+    | some e => e.2
+    | none => none
   -- text
   -- at top level the emitted `_required` is the private copy after the `remove`s
   let emitted (x : Schema) : Schema := match x with
@@ -232,17 +245,12 @@ def run (j : Json) : Except String Json := do
     | '-' :: r => PyGram.isNumText r
     | r => PyGram.isNumText r
   let oracleOk := floats.all (fun e => floatOk e.2)
-  let defDescs : List (Option String) ← match optField j "defDescs" with
-    | none => pure (defs.map fun _ => none)
-    | some x => (← x.getArr?).toList.mapM fun e => match e with
-      | .null => pure none
-      | e => do pure (some (← e.getStr?))
-  let defSrcs : List Emit.ClassSrc := (defs.zip defDescs).map fun ((n, d), ds) => ⟨n, ds, d⟩
+  let defSrcs : List Emit.ClassSrc := defs.map fun (n, d) => ⟨n, descOf n, d⟩
   let write := (← optStr j "api") == some "write"
   let text := Emit.moduleText O write defSrcs ⟨name, desc, s⟩
   let recog := PyGram.recognise X text
   -- the side conditions of `C09.emitted_module_accepted_partial`
-  let srcOk := defSrcs.all Emit.classSrcOk && Emit.classSrcOk ⟨name, desc, s⟩
+  let srcOk := defSrcs.all (Emit.classSrcOk X) && Emit.classSrcOk X ⟨name, desc, s⟩
   let clean := PyGram.textClean text
   let nestOk := PyGram.nestOk X text
   let recogReal : Option PyGram.Verdict := match optField j "code" with
@@ -261,6 +269,33 @@ def run (j : Json) : Except String Json := do
   let mangled (n : String) : Bool := n.startsWith "__" && !n.endsWith "__"
   let nameIssue := targets.any (fun n => !isPyName X n || PyGram.forbiddenTarget n.toList || mangled n)
     || plainNames.any (fun n => !isPyName X n || mangled n)
+  -- exactness models on this case's documents: for a property in the exact scalar sub-fragment and a value `v`,
+  -- "the generated field accepts v" (Deser + validate on schemaToDecl) and "the validator admits v" (jsV on scalarDoc)
+  let reTab : List ((String × String) × (Bool × Bool)) ← match optField j "reTable" with
+    | none => pure []
+    | some x => (← x.getArr?).toList.mapM fun e => do
+      let p ← e.getArr?
+      pure (((← p[0]!.getStr?), (← p[1]!.getStr?)), ((← p[2]!.getBool?), (← p[3]!.getBool?)))
+  let Ore : Oracles := { reMatch := fun p t => match reTab.find? (fun e => e.1 == (p, t)) with
+    | some e => e.2.1 | none => false }
+  let Sre : String → String → Bool := fun p t => match reTab.find? (fun e => e.1 == (p, t)) with
+    | some e => e.2.2 | none => false
+  let fieldDocs : List (String × PyVal) ← match optField j "fieldDocs" with
+    | none => pure []
+    | some x => (← x.getArr?).toList.mapM fun e => do
+      let p ← e.getArr?
+      pure ((← p[0]!.getStr?), (← valOfJson p[1]!))
+  let fieldVerdicts : List Json := fieldDocs.map fun (n, v) =>
+    match s with
+    | .obj props defaults _ _ =>
+      (match lookup n props with
+       | some sp =>
+         if CodeExact.exactSchema sp && (lookup n defaults).isNone then
+           Json.arr #[Json.bool (CodeExact.acceptsWith Ore (schemaToDecl (envResolver []) sp) v),
+                      Json.bool (Sch.jsV CodeExact.R0 Sre (CodeExact.scalarDoc true sp) v)]
+         else Json.null
+       | none => Json.null)
+    | _ => Json.null
   let phase :=
     if !crash.isEmpty then "gen"
     else if recog == .reject then "compile"
@@ -284,6 +319,7 @@ def run (j : Json) : Except String Json := do
     ("recogReal", match recogReal with | some v => Json.str v.name | none => Json.null),
     ("mutantVerdicts", strs mutantVerdicts),
     ("oracleOk", Json.bool oracleOk),
+    ("fieldVerdicts", Json.arr fieldVerdicts.toArray),
     ("srcOk", Json.bool srcOk), ("clean", Json.bool clean), ("nestOk", Json.bool nestOk),
     ("nameIssue", Json.bool nameIssue),
     ("refsOrdered", Json.bool ordered),
